@@ -3,7 +3,60 @@
 // Contracts for the gocv verifier (comment-only file; see /verif/DESIGN.md §4).
 package domain
 
-//@ func (m *MixMatcher) Match
-//@   nobody
-//@   log mixMatch
-//@   requires m != nil
+// trim(s): s without one trailing dot. norm(s): the normal form every matcher works on.
+//@ spec func trim(s string) string = ite(len(s) >= 1 && s[len(s) - 1] == 46, s[0 : len(s) - 1], s)
+//@ spec func norm(s string) string = lower(trim(s))
+
+//@ func TrimDot [C12]
+//@   ensures result == trim(s)
+//@ func NormalizeDomain [C12]
+//@   log NormalizeDomain
+//@   ensures result == norm(s)
+
+// ReverseDomainScanner (C12): labels are cut exactly at dots, right to left. scOK: the window
+// [p+1, t) lies inside the name, p is -1 or the position of a dot.
+//@ spec func scOK(sc *ReverseDomainScanner) bool = 0 - 1 <= sc.p && sc.p <= sc.t && sc.t <= len(sc.s) && (sc.p >= 0 && sc.p < len(sc.s) ==> sc.s[sc.p] == 46 || sc.p == sc.t)
+//@ func NewReverseDomainScanner [C12]
+//@   log newScanner
+//@   ensures result != nil && fresh(result) && result.s == trim(s) && result.p == len(trim(s)) && result.t == len(trim(s))
+//@ func (s *ReverseDomainScanner) Scan [C12]
+//@   log scan
+//@   requires s != nil && 0 - 1 <= s.p && s.p <= len(s.s)
+//@   modifies s.p, s.t
+//@   ensures result == (old(s.p) > 0)
+//@   ensures !result ==> s.p == old(s.p) && s.t == old(s.t)
+//@   ensures result ==> s.t == old(s.p) && 0 - 1 <= s.p && s.p < s.t && (s.p >= 0 ==> s.s[s.p] == 46) && (forall j int :: s.p < j && j < s.t ==> s.s[j] != 46)
+//@ func (s *ReverseDomainScanner) NextLabel [C12]
+//@   log nextLabel
+//@   requires s != nil && 0 - 1 <= s.p && s.p < s.t && s.t <= len(s.s)
+//@   ensures label == s.s[s.p + 1 : s.t]
+
+//@ func (n *labelNode) getValue [C12]
+//@   requires n != nil
+//@   ensures result_0 == n.v && result_1 == n.hasV
+//@ func (n *labelNode) hasValue [C12]
+//@   requires n != nil
+//@   ensures result == n.hasV
+//@ func (n *labelNode) getChild [C12]
+//@   log getChild
+//@   requires n != nil
+//@   ensures result == ite(n.children != nil && (key in n.children), n.children[key], nil)
+//@ func (n *labelNode) storeValue [C12]
+//@   requires n != nil
+//@   modifies n.v, n.hasV
+//@   ensures n.v == v && n.hasV
+
+// SubDomainMatcher.Match (C12): walks the label tree from the root with the labels of the
+// normalised name taken right to left, one tree level per label, stops at the first label that has
+// no node, and keeps the value of the DEEPEST node on that path that holds one (a node without a
+// value never hides the value of an ancestor).
+//@ func (m *SubDomainMatcher) Match [C12]
+//@   log subMatch
+//@   requires m != nil && m.root != nil
+//@   ensures calls(NormalizeDomain) == 1 && arg(NormalizeDomain, 0, 0) == s && calls(newScanner) == 1 && arg(newScanner, 0, 0) == ret(NormalizeDomain, 0)
+//@   loop 0:
+//@     invariant currentNode != nil && ds != nil && 0 - 1 <= ds.p && ds.p <= len(ds.s)
+//@     each iter_calls(scan) == 1 && iter_ret(scan, 0) && iter_calls(nextLabel) == 1 && iter_calls(getChild) == 1 && iter_arg(getChild, 0, 0) == athead(currentNode) && iter_arg(getChild, 0, 1) == iter_ret(nextLabel, 0)
+//@     each currentNode == iter_ret(getChild, 0) && currentNode != nil
+//@     each currentNode.hasV ==> v == currentNode.v && ok
+//@     each !currentNode.hasV ==> v == athead(v) && ok == athead(ok)
